@@ -5,6 +5,8 @@ mod verif_c10 {
     use crate::verif_ref::*;
     use crate::*;
     use crc::{Crc, CRC_16_USB, CRC_32_ISCSI, CRC_64_ECMA_182, CRC_82_DARC, CRC_8_SMBUS};
+    use crate::de_flavors::crc::{take_from_bytes_u128, take_from_bytes_u16, take_from_bytes_u32, take_from_bytes_u64, take_from_bytes_u8};
+    use crate::ser_flavors::crc::{to_slice_u128, to_slice_u16, to_slice_u32, to_slice_u64, to_slice_u8};
 
     static C8: Crc<u8> = Crc::<u8>::new(&CRC_8_SMBUS);
     static C16: Crc<u16> = Crc::<u16>::new(&CRC_16_USB);
@@ -15,7 +17,7 @@ mod verif_c10 {
     type Probe = (u16, bool);
 
     macro_rules! crc_h {
-        ($ser:ident, $de:ident, $corrupt:ident, $C:ident, $int:ty, $nb:expr, $to:path, $take:path, $w:expr, $alg:expr) => {
+        ($ser:ident, $de:ident, $corrupt:ident, $C:ident, $int:ty, $nb:expr, $to:ident, $take:ident, $w:expr, $alg:expr) => {
             /// output == plain(v) ++ little-endian checksum of exactly those bytes; decodes back; tail returned
             #[kani::proof]
             #[kani::unwind(20)]
@@ -89,11 +91,11 @@ mod verif_c10 {
             }
         };
     }
-    crc_h!(ser_u8, de_u8, corrupt_u8, C8, u8, 1, ser_flavors::crc::to_slice_u8, de_flavors::crc::take_from_bytes_u8, 8, CRC_8_SMBUS);
-    crc_h!(ser_u16, de_u16, corrupt_u16, C16, u16, 2, ser_flavors::crc::to_slice_u16, de_flavors::crc::take_from_bytes_u16, 16, CRC_16_USB);
-    crc_h!(ser_u32, de_u32, corrupt_u32, C32, u32, 4, ser_flavors::crc::to_slice_u32, de_flavors::crc::take_from_bytes_u32, 32, CRC_32_ISCSI);
-    crc_h!(ser_u64, de_u64, corrupt_u64, C64, u64, 8, ser_flavors::crc::to_slice_u64, de_flavors::crc::take_from_bytes_u64, 64, CRC_64_ECMA_182);
-    crc_h!(ser_u128, de_u128, corrupt_u128, C128, u128, 16, ser_flavors::crc::to_slice_u128, de_flavors::crc::take_from_bytes_u128, 82, CRC_82_DARC);
+    crc_h!(ser_u8, de_u8, corrupt_u8, C8, u8, 1, to_slice_u8, take_from_bytes_u8, 8, CRC_8_SMBUS);
+    crc_h!(ser_u16, de_u16, corrupt_u16, C16, u16, 2, to_slice_u16, take_from_bytes_u16, 16, CRC_16_USB);
+    crc_h!(ser_u32, de_u32, corrupt_u32, C32, u32, 4, to_slice_u32, take_from_bytes_u32, 32, CRC_32_ISCSI);
+    crc_h!(ser_u64, de_u64, corrupt_u64, C64, u64, 8, to_slice_u64, take_from_bytes_u64, 64, CRC_64_ECMA_182);
+    crc_h!(ser_u128, de_u128, corrupt_u128, C128, u128, 16, to_slice_u128, take_from_bytes_u128, 82, CRC_82_DARC);
 
     /// a multi-byte try_take_n (borrowed bytes) must feed the digest too: &[u8] payload round trip + wrong-checksum rejection
     #[kani::proof]
